@@ -34,7 +34,13 @@ func (g *Gen) Lifecycle() uint16 {
 	return validLifecycleHi[g.R.Intn(7)] | uint16(g.R.Intn(256))
 }
 
+// Digits returns n decimal digits: half of the time one of three fixed strings, so
+// that the SAME reference recurs across cases, objects and profiles within one
+// process (seeded fault C01-v: a verdict memo keyed by the string alone).
 func (g *Gen) Digits(n int) string {
+	if n <= 13 && g.R.Intn(2) == 0 {
+		return []string{"0000000000000", "1234567890123", "9780201379624"}[g.R.Intn(3)][:n]
+	}
 	b := make([]byte, n)
 	for i := range b {
 		b[i] = byte('0' + g.R.Intn(10))
